@@ -7,6 +7,7 @@ package main
 
 import (
 	"fmt"
+	"strings"
 	"time"
 
 	sdk "github.com/cosmos/cosmos-sdk/types"
@@ -14,7 +15,7 @@ import (
 	"github.com/irismod/service/types"
 )
 
-const nScripts = 30
+const nScripts = 38
 
 func runScript(a *App, mon *Mon, seed int64, v int) {
 	p := baseParams()
@@ -325,8 +326,16 @@ func runScript(a *App, mon *Mon, seed int64, v int) {
 			ten = append(ten, pr)
 		}
 		id := s.call("svc", ten, cons, 100, 2, false, true, 3, 2)
+		// the same ten under a cap that some of the first eight exceed (prices are 1, 2, 3)
+		id2 := s.call("svc", ten, s.A.Consumers[1], 2, 2, false, false, 0, 0)
+		// a provider named twice, not adjacently (refused by stateless validation), in a call
+		// and in an update
+		dup := append(append([]sdk.AccAddress{}, ten[:9]...), ten[0])
+		s.call("svc", dup, cons, 100, 2, false, true, 3, 2)
+		s.r.Msg(types.NewMsgUpdateRequestContext(unhex(id), dup, nil, 0, 0, 0, cons), "a provider named twice, not adjacently")
 		s.block()
 		answer(id, ten[8], ten[9], ten[0])
+		answer(id2, ten[0], ten[3])
 		blocks(6)
 	case 25:
 		// a price beyond 10^19 with a time and a volume promotion both in effect, discounts with
@@ -342,8 +351,11 @@ func runScript(a *App, mon *Mon, seed int64, v int) {
 		for b := 0; b < 6; b++ {
 			answer(id, p4)
 			s.block()
+			if b == 0 || b == 1 {
+				s.r.Probe() // genesis scenario while a fee beyond 2^63 (first batch) / just below it is pending
+			}
 		}
-		case 26:
+	case 26:
 		// two consumers on different sides of a volume tier start identical contexts (same
 		// service, providers, timeout, cap) in the same block, three times over: each is charged
 		// what its own requests record
@@ -376,7 +388,7 @@ func runScript(a *App, mon *Mon, seed int64, v int) {
 		blocks(3) // batch 2 expires while paused
 		s.ctl("start", id, cons)
 		blocks(8)
-		case 28:
+	case 28:
 		// ten distinct bindings fail twice in one block and three of them three times (two
 		// ten-provider contexts and three single-provider contexts, all expiring together): every failure
 		// lowers the recorded deposit and burns exactly that much
@@ -414,6 +426,140 @@ func runScript(a *App, mon *Mon, seed int64, v int) {
 			s.block()
 			answer(id, p4)
 		}
+	case 30:
+		// twelve contexts of two solvent consumers due in one block (and again at their next
+		// batch): each is charged exactly for the requests created for it
+		for i := 0; i < 12; i++ {
+			c := s.A.Consumers[i%2]
+			s.call("svc", []sdk.AccAddress{[]sdk.AccAddress{p1, p2, p3}[i%3]}, c, 100, 2, false, true, 4, 2)
+		}
+		blocks(9)
+	case 31:
+		// governance lowers the maximum request timeout below the response time of existing
+		// bindings while a repeated context that still reaches them is running: the next batch
+		// is charged as issued, a slash below the minimum still disables, a re-pricing still
+		// needs its collateral
+		p4, p5 := s.A.SignProv[3], s.A.SignProv[4]
+		s.bind("svc", p4, o2, 100, price("10"), 10) // deposit exactly price x multiple
+		s.bind("svc", p5, o2, 100, price("7"), 9)
+		id := s.call("svc", []sdk.AccAddress{p4, p5, p1}, cons, 100, 12, false, true, 12, 3)
+		s.block()
+		answer(id, p4, p5, p1)
+		np := s.p
+		np.MaxRequestTimeout = 5
+		s.r.ChangeParams(np)
+		s.r.Msg(types.NewMsgUpdateServiceBinding("svc", p5, nil, price("70"), 4, "{}", o2), "response time repaired and price raised tenfold without collateral")
+		s.r.Msg(types.NewMsgUpdateServiceBinding("svc", p5, nil, "", 4, "{}", o2), "response time repaired")
+		blocks(12) // batch 2 is issued under the lowered maximum
+		answer(id, p1)
+		blocks(13) // batch 2 expires: p4 (and p5) unanswered
+		blocks(2)
+	case 32:
+		// volume tiers beyond 2^53: the stored price terms are those of the published text, digit
+		// for digit
+		p4 := s.A.SignProv[3]
+		s.bind("svc", p4, o2, 5000, fmt.Sprintf(`{"price":"10%s","promotions_by_volume":[{"volume":2,"discount":"0.9"},{"volume":9007199254740993,"discount":"0.5"},{"volume":9223372036854775809,"discount":"0.3"},{"volume":18446744073709551615,"discount":"0.1"}]}`, denom), 1)
+		s.r.Msg(types.NewMsgUpdateServiceBinding("svc", p1, nil, fmt.Sprintf(`{"price":"2%s","promotions_by_volume":[{"volume":9007199254740995,"discount":"0.5"}]}`, denom), 0, "{}", o1), "")
+		id := s.call("svc", []sdk.AccAddress{p4, p1}, cons, 100, 1, false, true, 1, 4)
+		for b := 0; b < 5; b++ {
+			s.block()
+			answer(id, p4, p1)
+		}
+		s.r.Restart()
+		blocks(2)
+	case 33:
+		// a plain export (no zero-height preparation) taken while a repeated context idles between
+		// two batches, and one taken right after a call: probes at those instants
+		id := s.call("svc", all, cons, 100, 2, false, true, 6, 3)
+		s.r.Probe() // called, first batch not yet issued
+		s.block()
+		answer(id, p1, p2, p3)
+		blocks(3) // batch 1 expired, batch 2 due at +6
+		s.r.Probe()
+		s.ctl("pause", id, cons)
+		s.r.Probe()
+		s.ctl("start", id, cons)
+		blocks(8)
+	case 34:
+		// a provider whose address continues another provider's with a byte that sorts after the
+		// denomination earns more than that provider's owner has earned; then the shorter one
+		// withdraws. Names and descriptions that stateless validation refuses at their last
+		// byte / for their encoding, followed by a restart.
+		px := s.A.OddProv[2] // p1 followed by 'x'
+		s.bind("svc", px, o2, 1000, price("40"), 1)
+		id := s.call("svc", []sdk.AccAddress{p1, px}, cons, 100, 2, false, true, 2, 3)
+		for b := 0; b < 3; b++ {
+			s.block()
+			answer(id, px)
+			if b == 0 {
+				answer(id, p1)
+			}
+			s.block()
+		}
+		s.r.Msg(types.NewMsgWithdrawEarnedFees(o1, p1), "the shorter of two prefix-related providers withdraws")
+		s.r.Msg(types.NewMsgWithdrawEarnedFees(o2, px), "")
+		for _, n := range []string{"ab\x00", "svc\x00", "ab/", "ab ", "sv\x00c"} {
+			s.r.Msg(types.NewMsgDefineService(n, "d", nil, o1, "a", goodSchemas), "name with a bad byte")
+			s.r.Msg(types.NewMsgBindService(n, p2, coins(1000), price("1"), 1, "{}", o1), "")
+		}
+		s.r.Restart()
+		blocks(2)
+	case 37:
+		// texts that are not UTF-8 (refused) in each of the two description fields, then a restart
+		// through the genesis file (only 20-byte providers here, so that the file can be read back)
+		s.r.Msg(types.NewMsgDefineService("svclatin", "d", nil, o1, "Caf\xe9 Labs", goodSchemas), "author description that is not UTF-8")
+		s.r.Msg(types.NewMsgDefineService("svclatin2", "Caf\xe9", nil, o1, "a", goodSchemas), "description that is not UTF-8")
+		s.r.Msg(types.NewMsgDefineService("svcutf", "caf\u00e9 \u4e2d", []string{"t\u00e9"}, o1, "\u00e9", goodSchemas), "valid multi-byte texts")
+		id := s.call("svc", all, cons, 100, 2, false, true, 3, 2)
+		s.block()
+		answer(id, p1)
+		s.r.RestartOpt(false)
+		blocks(2)
+		s.r.RestartOpt(true)
+		blocks(2)
+	case 35:
+		// parameter-change proposals with values outside their legal range are refused; requests
+		// that fail afterwards are slashed under the parameters really in force
+		id := s.call("svc", all, cons, 100, 2, false, true, 3, 3)
+		s.block()
+		for _, f := range []string{"-0.5", "1.5", "-0.000000000000000001", "1.000000000000000001"} {
+			np := s.p
+			np.SlashFraction = sdk.MustNewDecFromStr(f)
+			s.r.ChangeParams(np)
+			answer(id, p1)
+			s.respond(firstOf(s.pendingOf(id, p2)), p2, 1) // malformed output: slash branch of the response path
+			blocks(3)
+		}
+		np := s.p
+		np.ServiceFeeTax = sdk.MustNewDecFromStr("1.0")
+		s.r.ChangeParams(np)
+		np = s.p
+		np.MaxRequestTimeout = 0
+		s.r.ChangeParams(np)
+		np = s.p
+		np.ComplaintRetrospect = -time.Second
+		s.r.ChangeParams(np)
+		blocks(3)
+	case 36:
+		// two module contexts whose unanswered batches expire in one block; the module reacts to
+		// the failed batch of one by killing its other contexts, from inside the response
+		// callback: the killed one is finished when its own batch expires in the same block
+		s.r.SetRespKillOthers(true)
+		a := s.modCreate("svc", all, cons, 100, 2, true, 4, 5, 2)
+		b := s.modCreate("svc", all, cons, 100, 2, true, 4, 5, 2)
+		c := s.modCreate("svc", []sdk.AccAddress{p1}, cons, 100, 2, true, 4, 5, 1)
+		s.block()
+		answer(a, p1)
+		answer(b, p2)
+		_ = c
+		blocks(10)
 	}
 	s.done()
+}
+
+func firstOf(xs []string) string {
+	if len(xs) == 0 {
+		return strings.Repeat("00", 58)
+	}
+	return xs[0]
 }
